@@ -4,14 +4,20 @@
 INDEX = {
     "C01": ["c01"],
     "C02": ["c01"],
-    "C03": ["c03", "c20", "c16", "c11", "c09"],
+    "C03": ["c03", "c20", "c16", "c11", "c09", "c17"],
     "C04": ["c06"],
     "C05": ["c05"],
     "C06": ["c06"],
     "C07": ["c06"],
     "C09": ["c09"],
+    "C10": ["c10"],
     "C11": ["c11"],
+    "C13": ["c13"],
+    "C14": ["c13"],
+    "C15": ["c13"],
     "C16": ["c16"],
+    "C17": ["c17"],
+    "C18": ["c17"],
     "C19": ["c19"],
     "C20": ["c20"],
 }
